@@ -8,6 +8,22 @@ theorem rev_tdiv2_nat (n : Nat) : Int.tdiv (n : Int) 2 = ((n / 2 : Nat) : Int) :
   rw [Int.tdiv_eq_ediv_of_nonneg (by omega)]
   omega
 
+seal Juniper.Facts.wrap64
+
+/-- `i < len(s)/2` for a length that fits in an `int`: the 64-bit division is exact -/
+theorem revCond_nat (t n : Nat) (hn : n ≤ 9223372036854775807) :
+    revCond (t : Int) (n : Int) = decide ((t : Int) < ((n / 2 : Nat) : Int)) := by
+  unfold revCond
+  rw [rev_tdiv2_nat, wrap64_nat (by omega)]
+
+/-- `len(s)-i-1` for `i < len(s) ≤ MaxInt64`: both subtractions are exact -/
+theorem revMirror_nat (t n : Nat) (ht : t < n) (hn : n ≤ 9223372036854775807) :
+    revMirror (t : Int) (n : Int) = ((n - t - 1 : Nat) : Int) := by
+  unfold revMirror
+  have e1 : Juniper.Facts.wrap64 ((n : Int) - (t : Int)) = ((n - t : Nat) : Int) := by
+    rw [wrap64_of_range (by omega) (by omega)]; omega
+  rw [e1, wrap64_of_range (by omega) (by omega)]; omega
+
 /-- the invariant of the `Reverse` loop after `t` iterations -/
 def RevInv (s a : List α) (t : Nat) : Prop :=
   a.length = s.length ∧ 2 * t ≤ s.length ∧
@@ -26,7 +42,7 @@ theorem revInv_final (s a : List α) (t : Nat) (h : RevInv s a t) (ht : s.length
       rw [this]
   · rw [List.getElem?_eq_none (by omega), List.getElem?_eq_none (by simp; omega)]
 
-theorem reverseLoop_inv (s : List α) : ∀ (fuel : Nat) (a : List α) (t : Nat),
+theorem reverseLoop_inv (s : List α) (hl64 : s.length ≤ 9223372036854775807) : ∀ (fuel : Nat) (a : List α) (t : Nat),
     RevInv s a t → s.length / 2 - t ≤ fuel → reverseLoop fuel a (t : Int) = some s.reverse := by
   intro fuel
   induction fuel with
@@ -36,15 +52,15 @@ theorem reverseLoop_inv (s : List α) : ∀ (fuel : Nat) (a : List α) (t : Nat)
   | succ fuel ih =>
     intro a t h hf
     rw [reverseLoop]
-    simp only [revCond, revSwaps, revMirror, rev_tdiv2_nat, decide_eq_true_eq, if_true]
+    have hla : a.length ≤ 9223372036854775807 := by rw [h.1]; exact hl64
+    simp only [revCond_nat _ _ hla, revSwaps, decide_eq_true_eq, if_true]
     by_cases hc : t < s.length / 2
     · obtain ⟨hl, h2, hp⟩ := h
       have hc' : (t : Int) < ((a.length / 2 : Nat) : Int) := by rw [hl]; omega
       rw [if_pos hc']
-      have hm : ((a.length : Int) - (t : Int) - 1) = ((a.length - t - 1 : Nat) : Int) := by omega
       have hi : t < a.length := by omega
       have hj : a.length - t - 1 < a.length := by omega
-      rw [hm, swapI_nat a t (a.length - t - 1) hi hj]
+      rw [revMirror_nat t a.length hi hla, swapI_nat a t (a.length - t - 1) hi hj]
       simp only
       have := ih (swapNat a t (a.length - t - 1) hi hj) (t + 1) ?_ (by omega)
       · simpa using this
@@ -71,10 +87,10 @@ theorem reverseLoop_inv (s : List α) : ∀ (fuel : Nat) (a : List α) (t : Nat)
     · have hc' : ¬ (t : Int) < ((a.length / 2 : Nat) : Int) := by rw [h.1]; omega
       rw [if_neg hc', revInv_final s a t h (by omega)]
 
-theorem reverse_spec (s : List α) : reverse s = some s.reverse := by
+theorem reverse_spec (s : List α) (hl64 : s.length ≤ 9223372036854775807) : reverse s = some s.reverse := by
   unfold reverse
   simp only [revI0]
-  have := reverseLoop_inv s s.length s 0 ⟨rfl, by omega, by intro p hp; simp; omega⟩ (by omega)
+  have := reverseLoop_inv s hl64 s.length s 0 ⟨rfl, by omega, by intro p hp; simp; omega⟩ (by omega)
   simpa using this
 
 end Juniper.Proofs.Helpers
